@@ -174,7 +174,7 @@ def gen(s: Choices, cls, cfg):
             sc["series"] = bool(s.draw(2))
     sc["workers"] = s.weighted([(5, None), (2, 1), (2, 2), (1, 3)])
     if cfg.get("fault_mode") and kind in ("1d", "2d", "real"):
-        kindf = s.weighted([(3, "task_fail_before"), (3, "task_fail_after"), (2, "spawn_fail")])
+        kindf = s.weighted([(3, "task_fail_before"), (3, "task_fail_after"), (2, "spawn_fail"), (2, "consumer_interrupt")])
         sc["fault"] = {"kind": kindf, "k": s.draw(4)}
     else:
         sc["fault"] = None
@@ -222,7 +222,7 @@ def _outcome(fn):
     try:
         return ("ok", _canon(fn()))
     except BaseException as e:  # noqa: BLE001
-        if isinstance(e, (KeyboardInterrupt, SystemExit, executor.ProtocolError)):
+        if isinstance(e, (KeyboardInterrupt, SystemExit, executor.ProtocolError)) and not isinstance(e, executor.InjectedInterrupt):
             raise
         return ("raise", type(e).__name__, compare.msg(e, 200))
 
